@@ -11,10 +11,10 @@ racer      : harness/cmd/c20racer (-race) runs the REAL taint driver (taint.Anal
              (dumped from Coq by vm_compute), report files must be complete at return and equal across identical runs,
              no goroutine may outlive the analysis
 """
-import hashlib
 import os
 import re
 import shutil
+import time
 
 import vlib
 
@@ -23,8 +23,8 @@ PROGRAMS_QUICK = [GEN, "closures", "basic"]
 PROGRAMS_THOROUGH = [GEN, "globals", "closures", "basic", "example1", "interfaces", "fields"]
 # run specs of c20racer; runs without report-summaries first, so that a leftover writer goroutine cannot disturb them
 RUNS_QUICK = {GEN: "none;od,rc,rp;nr=0;rs;rs;rs,rc,rp,nr=3",
-              "closures": "rc,rp;od;nr=2;rs,od;rs,od;rs,nr=1",
-              "basic": "rc;rs;rs"}
+              "closures": "od,rc,rp;nr=2;rs,od;rs,od",
+              "basic": "rs;rs"}
 RUNS_THOROUGH = "none;none;rc,rp;rc,rp;od;od,rc,rp;nr=0;nr=1;nr=5;rs;rs;rs;rs,rc,rp;rs,od;rs,od;rs,nr=0;rs,nr=0;rs,nr=7,rc"
 
 KNOWN_KEY = "report-summaries-writer"
@@ -238,8 +238,17 @@ def predicted(pairs, a, b, oa, ob):
 def run(chk):
     tier = chk.tier
     quick = tier == "quick"
+    timing = {}
+    t0 = time.time()
+
+    def lap(name):
+        nonlocal t0
+        timing[name] = round(time.time() - t0, 1)
+        t0 = time.time()
     failed = chk.prove("theories/Properties/C20.v")
+    lap("prove")
     binr = vlib.build_harness(["c20mappar", "c20racer"], race=True)
+    lap("go_build_race")
     work = os.path.join(vlib.BUILD, "c20")
     shutil.rmtree(work, ignore_errors=True)
     os.makedirs(work)
@@ -317,6 +326,7 @@ def run(chk):
                           % (n, nr, kv["g0"], kv["g1"]), d)
         if len(chk.cov["samples"]) < 3 and n >= 5 and kv["typ"] == "int":
             chk.sample({"MapParallel": kv, "input": xs_of.get(i, [])[:8], "result": res_of.get(i, [])[:8]})
+    lap("mappar_impl")
     mp_races = read_race_logs(racelog)
     if mp_races:
         found_concrete = True
@@ -362,6 +372,7 @@ def run(chk):
                 "\nre-run: build/bin/c20model < build/c20/model.in\n")
             chk.violation("tie-broken", "extracted MapParallel model disagrees with its own theorem on %d runs" % len(tie_bad), d, no_input=True)
 
+    lap("mappar_model")
     # ---------------------------------------------------------------- (2) racer: the real taint driver under -race
     lines = source_lines(vlib.REPO)
     programs = PROGRAMS_QUICK if quick else PROGRAMS_THOROUGH
@@ -371,6 +382,7 @@ def run(chk):
     specs = {p: (RUNS_QUICK.get(p, "none;rs") if quick else RUNS_THOROUGH) for p, _ in progdirs}
     combos = sorted(set(opts_of(s) for p in specs for s in specs[p].split(";")))
     matrix = dump_matrix(work, combos)
+    lap("matrix_dump")
     chk.cov["matrix_racy_pairs"] = {"".join("1" if x else "0" for x in c): len(v) for c, v in matrix.items()}
 
     import subprocess
@@ -445,15 +457,18 @@ def run(chk):
                 chk.violation(key, "data race in the analyzer on %s with options [%s]: %s vs %s (%s)" % (p, spec, a, b, race_title(race)), dd)
             # goroutines alive after return
             g0, g1, g2 = r["G"]
-            if g2 > g0:
-                if combo[0] and "BuildGraph.func1" in r["stacks"]:
-                    stats["writer_alive_after_return"] += 1
-                    known_symptoms.append((p, spec, "writer goroutine still running %s ms after the analysis returned" % 300, r["stacks"][:3000]))
-                else:
-                    found_concrete = True
-                    dd = chk.replay_dir("leak-%s-%s" % (p, spec))
-                    write_racer_replay(dd, p, d, spec, "goroutines before %d, at return %d, after settle %d\n\n%s" % (g0, g1, g2, r["stacks"][:6000]))
-                    chk.violation("goroutine-leak:" + leak_site(r["stacks"]), "goroutines outlive the analysis on %s [%s]: %d -> %d" % (p, spec, g0, g2), dd)
+            if g2 > g0 and combo[0] and "BuildGraph.func1" in r["stacks"]:
+                stats["writer_alive_after_return"] += 1
+                known_symptoms.append((p, spec, "writer goroutine still running 300 ms after the analysis returned", r["stacks"][:3000]))
+            elif r["gend"] > g0:
+                # still there after the harness waited up to 60 s more: a leak (blocked forever), not a slow exit
+                found_concrete = True
+                dd = chk.replay_dir("leak-%s-%s" % (p, spec))
+                write_racer_replay(dd, p, d, spec, "goroutines before %d, at return %d, after 300 ms %d, after waiting up to 60 s more %d\n\n%s"
+                                   % (g0, g1, g2, r["gend"], r["stacks"][:6000]))
+                chk.violation("goroutine-leak:" + leak_site(r["stacks"]), "goroutines outlive the analysis on %s [%s]: %d -> %d" % (p, spec, g0, r["gend"]), dd)
+            elif g2 > g0:
+                chk.notes.append("%s [%s]: %d goroutine(s) were still exiting 300 ms after return (gone later)" % (p, spec, g2 - g0))
             # report files complete at return
             for f in r["F"]:
                 stats["report_files"] += 1
@@ -485,6 +500,8 @@ def run(chk):
         if len(ts) > 1:
             chk.notes.append("number of taint flows differs across option combinations on %s: %s" % (p, sorted(ts)))
 
+    lap("racer")
+    chk.cov["timing_s"] = timing
     if known_symptoms:
         p, spec, what, raw = known_symptoms[0]
         d = chk.replay_dir(KNOWN_KEY)
@@ -542,7 +559,7 @@ def parse_racer(out):
         if not m:
             continue
         k, tag, rest = int(m.group(1)), m.group(2), m.group(3)
-        r = runs.setdefault(k, {"spec": "", "G": (0, 0, 0), "F": [], "H": None, "E": None, "T": -1, "stacks": "", "log0": 0, "log1": 0})
+        r = runs.setdefault(k, {"spec": "", "G": (0, 0, 0), "F": [], "H": None, "E": None, "T": -1, "stacks": "", "log0": 0, "log1": 0, "gend": 0})
         if tag == "BEGIN":
             mm = re.match(r"(\S*) ?racelog=(\d+)", rest)
             r["spec"] = mm.group(1) if mm.group(1) != "none" else ""
@@ -563,6 +580,7 @@ def parse_racer(out):
             r["T"] = int(rest)
         elif tag == "END":
             r["log1"] = int(re.search(r"racelog=(\d+)", rest).group(1))
+            r["gend"] = int(re.search(r" g=(\d+)", rest).group(1))
     return runs
 
 
